@@ -1,7 +1,6 @@
 package main
 
 import (
-	"strings"
 	"bytes"
 	"context"
 	"errors"
@@ -9,6 +8,7 @@ import (
 	"io"
 	"log"
 	"net"
+	"strings"
 	"sync"
 	"time"
 
@@ -303,6 +303,72 @@ func runOverlap(c *Ctx, r *Rng) {
 	c.Count("overlap", nameA+nameB)
 }
 
+// the table of requests in flight belongs to one Serve call: the same (source, identifier) arriving on another
+// socket of the same server while the first handler runs is a different request and must be dispatched
+func runTwoServes(c *Ctx, r *Rng) {
+	schedMu.Lock()
+	defer schedMu.Unlock()
+	sec := []byte("two")
+	type got struct {
+		local string
+		id    byte
+	}
+	gotc := make(chan got, 4)
+	release := make(chan struct{})
+	srv := &radius.PacketServer{SecretSource: radius.StaticSecretSource(sec), ErrorLog: log.New(io.Discard, "", 0),
+		Handler: radius.HandlerFunc(func(w radius.ResponseWriter, rq *radius.Request) {
+			gotc <- got{rq.LocalAddr.String(), rq.Identifier}
+			w.Write(rq.Response(radius.CodeAccessAccept))
+			<-release
+		})}
+	ca, cb := newFakeConn(0), newFakeConn(1)
+	da, db := make(chan error, 1), make(chan error, 1)
+	go func() { da <- srv.Serve(ca) }()
+	go func() { db <- srv.Serve(cb) }()
+	p := &radius.Packet{Code: 1, Identifier: byte(r.Intn(256)), Secret: sec}
+	copy(p.Authenticator[:], r.Bytes(16))
+	p.Add(1, []byte("u"))
+	d, _ := p.Encode()
+	peer := fakeAddr(peerAddr(0))
+	var res []got
+	recv := func() bool {
+		select {
+		case g := <-gotc:
+			res = append(res, g)
+			return true
+		case <-time.After(2 * time.Second):
+			return false
+		}
+	}
+	ca.in <- fakePkt{d, peer}
+	okA := recv()
+	cb.in <- fakePkt{d, peer} // the same request on the other socket while A's handler is still running
+	okB := recv()
+	ca.in <- fakePkt{d, peer} // and once more on A: a duplicate for that Serve call
+	dup := false
+	select {
+	case g := <-gotc:
+		res = append(res, g)
+		dup = true
+	case <-time.After(150 * time.Millisecond):
+	}
+	close(release)
+	ctx, cancel := context.WithTimeout(context.Background(), 3*time.Second)
+	srv.Shutdown(ctx)
+	cancel()
+	<-da
+	<-db
+	cb.mu.Lock()
+	repliesB := len(cb.writes)
+	cb.mu.Unlock()
+	if !okA || !okB || dup || repliesB != 1 {
+		c.Fail("spec", "PacketServer.Serve", "two-serve-calls", fmt.Sprintf("request %x from %s on socket A, then on socket B while A's handler runs, then again on A", d, peerAddr(0)),
+			fmt.Sprintf("handlers started: %+v; replies on B: %d; duplicate on A dispatched: %v", res, repliesB, dup), "one handler per socket, one reply on B, the duplicate on A dropped",
+			"duplicates are suppressed among the requests received by the same Serve call; a reply goes out on the receiving socket")
+	}
+	c.Count("two-serve-calls", hx(d))
+}
+
 func b2i(b bool) int64 {
 	if b {
 		return 1
@@ -321,7 +387,10 @@ func init() {
 		for i := 0; i < c.N(10, 200); i++ {
 			runOverlap(c, r)
 		}
+		for i := 0; i < c.N(5, 100); i++ {
+			runTwoServes(c, r)
+		}
 		c.Flush()
-		c.RequireTags("history", "history-concurrent", "reply", "overlap")
+		c.RequireTags("history", "history-concurrent", "reply", "overlap", "two-serve-calls")
 	}
 }
